@@ -25,7 +25,7 @@ ASSUMPTIONS = [
     "banks whose largest template does not fit the data (library raises ValueError) are out of scope and counted",
     "the boxcar bank is stated independently as the ladder 1, max(w+1, floor(spacing*w)), ... up to and including nbins_max (the documented meaning of nbins_max)",
 ]
-REQUIRED_OUTCOMES = ["responses/ok", "responses/non_good_length", "argmax/ok", "affine/ok", "boxcar_recovery/ok", "peak_recovery/ok", "responses/long_ok", "affine/large_baseline_ok"]
+REQUIRED_OUTCOMES = ["responses/ok", "responses/non_good_length", "argmax/ok", "affine/ok", "boxcar_recovery/ok", "peak_recovery/ok", "responses/long_ok", "affine/large_baseline_ok", "model/ok"]
 
 EPS32 = float(np.finfo(np.float32).eps)
 KINDS = ["boxcar", "gaussian", "lorentzian"]
@@ -44,6 +44,9 @@ def shards(tier: str, seed: int) -> list:
     step = 4
     for a in range(lo, hi + 1, step):
         out.append({"kind": "responses", "lo": a, "hi": min(hi, a + step - 1)})
+    # short data (4..31 bins): banks whose widest template still fits must be searched, not refused
+    for a in range(4, lo, 7):
+        out.append({"kind": "responses", "lo": a, "hi": min(lo - 1, a + 6)})
     for n in b["recovery_lengths"]:
         out.append({"kind": "recovery", "n": n})
     # scale lane: data lengths beyond 8192 bins that are not FFT-friendly (a fast path or padding chosen above a size would show here)
@@ -148,7 +151,12 @@ def _responses(shard, ctx, res, only):
                 try:
                     mf = MatchedFilter(x, loc_method=std[0], scale_method=std[1], temp_kind=kind, nbins_max=nbmax, spacing_factor=spacing)
                 except ValueError as e:
-                    if "larger than the data" in str(e):
+                    if "larger than the data" in str(e) or "nbins_max" in str(e):
+                        if kind == "boxcar" and max(_ladder(nbmax, spacing)) <= n:
+                            res.evaluations += 1
+                            res.violation({"site": "MatchedFilter", "symptom": "refused a bank whose widest template fits the data"}, case,
+                                          f"n={n} nbins_max={nbmax} spacing={spacing}: widest boxcar {max(_ladder(nbmax, spacing))}: {e!r}")
+                            continue
                         res.skip("bank_does_not_fit")
                         continue
                     res.evaluations += 1
@@ -183,6 +191,26 @@ def _responses(shard, ctx, res, only):
                 if not good:
                     res.outcome("responses/non_good_length")
                     res.nontrivial += 1
+                # the template objects handed back to the user: get_model(t, n) is the same zero-padded, zero-mean, unit-norm template with its
+                # reference bin at t (wrapping around the array edge), so <z, get_model(t)> is the response at t
+                if (nbmax, spacing) == (8, 1.5):
+                    res.evaluations += 1
+                    badm = None
+                    for k, temp in enumerate(bank):
+                        for t in sorted({0, 1, max(0, temp.ref_bin - 1), n - int(temp.data.size), n - 2, n - 1, n // 2}):
+                            if not 0 <= t < n:
+                                continue
+                            gm = np.asarray(temp.get_model(t, n), dtype=np.float64)
+                            if gm.shape != (n,) or not np.allclose(gm, _model(temp, n, t), rtol=0, atol=1e-5):
+                                badm = (k, t)
+                                break
+                        if badm:
+                            break
+                    if badm:
+                        res.violation({"site": "Template.get_model", "symptom": "model differs from the template the response was computed with"}, case,
+                                      f"n={n} kind={kind} template {badm[0]} (width {bank[badm[0]].width}) at bin {badm[1]}")
+                        continue
+                    res.outcome("model/ok")
                 # (b) argmax
                 res.evaluations += 1
                 flat = np.asarray(mf.convs).ravel()
